@@ -153,6 +153,17 @@ def run(chk, facts_dir, tier):
     chk.floor("R12.2-errors", len(news), 3)
     evs = [t for bi, t in calls(bw, "ReplySender::<R>::send", suffix=True)
            if any(isinstance(x, tuple) and x and x[0] == "agg" and x[1].endswith("WriteError::BufferEvicted") for x in walk(bev.operand(t["args"][1], (bi, "T"))))]
+    if not evs:
+        # the answering loop may have been extracted into a private helper of buffer_write
+        for bi, t in bw.calls():
+            hb = prog.bodies.get(bw.callee(t) or bw.callee_decl(t) or "")
+            if hb is None or hb.path == bw.path:
+                continue
+            hev = Ev(prog, hb)
+            hs = [t2 for bi2, t2 in calls(hb, "ReplySender::<R>::send", suffix=True)
+                  if any(isinstance(x, tuple) and x and x[0] == "agg" and x[1].endswith("WriteError::BufferEvicted") for x in walk(hev.operand(t2["args"][1], (bi2, "T"))))]
+            if hs:
+                evs = [t]
     if evs:
         chk.ok("R12.2", "evicted senders are answered with BufferEvicted", bw.where(evs[0]["line"]))
     else:
